@@ -249,7 +249,8 @@ def step (line : String) : String :=
   | _ => "bad-op"
 
 def stepLine (line : String) : String :=
-  if line.startsWith "query " then opQuery (line.drop 6).toString
+  if line.startsWith "queryjs " then opQueryJs (line.drop 8).toString
+  else if line.startsWith "query " then opQuery (line.drop 6).toString
   else if line.startsWith "header " then opHeader (line.drop 7).toString
   else step line
 
